@@ -31,9 +31,9 @@ def shards(tier, seed):
     q = tier == "quick"
     out = []
     for s in shard_seeds(seed, 5, "C06a"):
-        out.append({"kind": "compiled", "seed": s, "n": 40 if q else 900, "depth": 2})
+        out.append({"kind": "compiled", "seed": s, "n": 90 if q else 900, "depth": 2})
     for s in shard_seeds(seed, 3, "C06b"):
-        out.append({"kind": "relaid", "seed": s, "n": 40 if q else 900, "depth": 2})
+        out.append({"kind": "relaid", "seed": s, "n": 90 if q else 900, "depth": 2})
     for s in shard_seeds(seed, 5, "C06c"):
         out.append({"kind": "cfg", "seed": s, "n": 100 if q else 2500})
     for s in shard_seeds(seed, 3, "C06d"):
